@@ -59,7 +59,7 @@ pub fn universe(full: bool) -> Vec<Arg> {
     u.push(comp("ConstFelt5", "Const", &[], &[&felt], &["5"]));
     u.push(comp("ConstU8_0", "Const", &[], &[&ints[0]], &["0"]));
     u.push(comp("ConstBi0", "Const", &[], &[&bis[0]], &["0"]));
-    for b in ["RangeCheck", "GasBuiltin", "Pedersen", "Bitwise", "System", "SegmentArena", "RangeCheck96", "AddMod", "MulMod", "BuiltinCosts", "u96", "QM31"].iter().take(if full { 12 } else { 4 }) {
+    for b in ["RangeCheck", "GasBuiltin", "Pedersen", "Bitwise", "System", "SegmentArena", "RangeCheck96", "AddMod", "MulMod", "BuiltinCosts", "u96", "qm31"].iter().take(if full { 12 } else { 4 }) {
         if *b == "u96" { u.push(comp("U96", "BoundedInt", &["0", "79228162514264337593543950335"], &[], &[])); } else { u.push(simple(b)); }
     }
     // circuits
@@ -78,6 +78,20 @@ pub fn universe(full: bool) -> Vec<Arg> {
         u.push(comp("CircMod", "CircuitModulus", &[], &[], &[]));
         u.push(comp("SqG", "SquashedFelt252Dict", &[], &[&felt], &[]));
         u.push(comp("Span", "Struct", &["ut@core::array::Span::<core::felt252>"], &[&comp("SnapArr", "Snapshot", &[], &[&arr], &[])], &[]));
+    }
+    // guarantees, coupons, ranges, dict entries (types that only some libfuncs take as arguments)
+    u.push(comp("Guar0", "BoundedIntGuarantee", &[], &[&bis[0]], &[]));
+    u.push(comp("Guar3", "BoundedIntGuarantee", &[], &[&bis[3]], &[]));
+    u.push(comp("GuarU128", "BoundedIntGuarantee", &[], &[&ints[4]], &[]));
+    u.push(comp("CouponF", "Coupon", &["user@f"], &[], &[]));
+    u.push(comp("RangeU8", "IntRange", &[], &[&ints[0]], &[]));
+    u.push(comp("EntryFelt", "Felt252DictEntry", &[], &[&felt], &[]));
+    if full {
+        u.push(comp("Guar6", "BoundedIntGuarantee", &[], &[&bis[6]], &[]));
+        u.push(comp("RangeBi1", "IntRange", &[], &[&bis[1]], &[]));
+        u.push(comp("SpanFelt", "Span", &[], &[&felt], &[]));
+        u.push(comp("LtG", "U96LimbsLtGuarantee", &["4"], &[], &[]));
+        u.push(comp("LtG1", "U96LimbsLtGuarantee", &["1"], &[], &[]));
     }
     // values, user type, user function
     let vals: &[&str] = if full { &["0", "1", "-1", "2", "255", "32768", "18446744073709551616", two128, P_MINUS_1, P, "115792089237316195423570985008687907853269984665640564039457584007913129639936"] } else { &["0", "1", "-1", two128, P] };
